@@ -146,6 +146,54 @@ def worker(cfg, tier):
             o_.replayed = _replay_autoreset_fresh()
         obs.append(o_)
 
+    elif which == "stacking":
+        # wrapper stackings: the state/observation/info a stack's reset() returns must be acceptable to its own step() (the auto-reset cond
+        # requires the stored/fresh reset info and the step info to share one structure), and the stack keeps each wrapper's law
+        order = cfg["order"]
+        mk = {"autoreset(log(env))": lambda: rl.AutoResetWrapper(rl.LogWrapper(_stub_env(None, D)), fixed_init=cfg.get("fixed_init", True)),
+              "log(autoreset(env))": lambda: rl.LogWrapper(rl.AutoResetWrapper(_stub_env(None, D), fixed_init=cfg.get("fixed_init", True))),
+              "autoreset(log(autoreset(env)))": lambda: rl.AutoResetWrapper(rl.LogWrapper(rl.AutoResetWrapper(_stub_env(None, D), fixed_init=False)), fixed_init=True)}[order]
+        name = f"stacking {order}: step() accepts what reset() returned; reward/flags are the inner step's; a finished episode hands back the initial state and observation"
+        t0 = time.time()
+        try:
+            env = mk()
+            gs0, obs0, info0 = env.reset(key0)
+            calls, it, tr, flat, (gs, act), out = setup(env.step, gs0, jnp.zeros((1,), jnp.float32))
+        except Exception as ex:  # the real stack raises while its step is evaluated/traced
+            real = None
+            try:
+                env = mk()
+                g_, o_, i_ = env.reset(key0)
+                env.step(g_, jnp.zeros((1,), jnp.float32))
+                real = False
+            except Exception:
+                real = True
+            obs.append(Ob(name, "sat", time.time() - t0, cfg, key="wrapper-stacking", replayed=real, detail=f"{type(ex).__name__}: {str(ex)[:300]}",
+                          what=f"the wrapper stack {order} cannot be stepped: its reset() and step() infos do not share a structure ({type(ex).__name__})"))
+            return obs
+        alg = it.alg
+        i_rew, i_term, i_trunc = inner(calls, "step_reward")["outs"][0], inner(calls, "step_terminated")["outs"][0], inner(calls, "step_truncated")["outs"][0]
+        i_state = inner(calls, "step_state")["outs"][0]
+        done = z3.Or(alg.z(i_term.item()), alg.z(i_trunc.item()))
+
+        def G(o):
+            ngs, nobs, rew, term, trunc, ninfo = o
+            conj = [_eqz(alg, rew, i_rew), _eqz(alg, term, i_term), _eqz(alg, trunc, i_trunc)]
+            if order != "log(autoreset(env))" or cfg.get("fixed_init", True):
+                ini = gs.aux["init"] if "init" in gs.aux else None
+                if ini is not None:
+                    conj.append(z3.Implies(done, z3.And(_eqz(alg, ngs.state["n"].x, ini.graph_state.state["n"].x), _eqz(alg, nobs, ini.obs))))
+            conj.append(z3.Implies(z3.Not(done), _eqz(alg, ngs.state["n"].x, i_state)))
+            lg0, lg1 = gs.aux["log"], ngs.aux["log"]
+            conj.append(alg.z(lg1.timestep.item(), "i") == alg.z(lg0.timestep.item(), "i") + 1)
+            conj.append(z3.Implies(done, alg.z(lg1.episode_lengths.item(), "i") == 0))
+            conj.append(z3.Implies(z3.Not(done), alg.z(lg1.episode_lengths.item(), "i") == alg.z(lg0.episode_lengths.item(), "i") + 1))
+            return z3.And(*conj)
+
+        obs.append(cg.decide_oracle(name, cfg, it, tr, flat, calls, out, [], G, "wrapper-stacking", f"the wrapper stack {order} does not keep the wrappers' laws", tmo))
+        v, m, s = smt.satisfiable([done], 10)
+        obs.append(Ob("twin.done_reachable", v, s, cfg, kind="vacuity"))
+
     elif which == "log":
         env = rl.LogWrapper(_stub_env(None, D))
         ls = rl.LogState(episode_returns=jnp.float32(0), episode_lengths=jnp.int32(0), returned_episode_returns=jnp.float32(0),
@@ -557,6 +605,8 @@ def configs(tier):
     out += [dict(which="norm_obs", B=2, D=1), dict(which="norm_reward", B=2, D=1)]
     out += [dict(which="norm_obs", B=1, D=1), dict(which="norm_reward", B=1, D=1)]  # a single vectorised environment (batch statistics of one sample)
     out += [dict(which="env_step", inst=cg.instances("quick", small=True)[0]), dict(which="env_step", inst=cg.instances("quick", small=True)[0], hooks=True)]
+    out += [dict(which="stacking", order="log(autoreset(env))"), dict(which="stacking", order="autoreset(log(env))"), dict(which="stacking", order="log(autoreset(env))", fixed_init=False),
+            dict(which="stacking", order="autoreset(log(env))", fixed_init=False), dict(which="stacking", order="autoreset(log(autoreset(env)))")]
     if tier == "thorough":
         out += [dict(which="norm_obs", B=3, D=2), dict(which="norm_reward", B=3, D=1), dict(which="squash", D=2), dict(which="autoreset_fixed", D=2)]
         out += [dict(which="env_step", inst=i, hooks=h) for i in cg.instances("quick", small=True)[1:4] for h in (False, True)]
